@@ -446,7 +446,7 @@ class Sgp4Beta:
 
         vector = np.concatenate((vR, vRdot)) * 1000  # conversion to meters
 
-        data = self.tle._data.copy()
+        data = self.tle.copy()._data
         data["date"] = date
         data["form"] = "cartesian"
         data["propagator"] = self.__class__()
